@@ -359,6 +359,16 @@ def standard_proof_step(ck: Check, extra_targets=()):
     except BuildError as e:
         ck.broken_obligation("gen_tables", e.log)
         return 1, 0, []
+    # audit of the sources (no Admitted/Axiom/Parameter..., no Variable outside a Section, no unsafe flags)
+    try:
+        sys.path.insert(0, os.path.join(ROOT, "tools"))
+        import audit_coq
+        hits = audit_coq.audit(COQ)
+        if hits:
+            ck.broken_obligation("audit_coq", "\n".join(hits[:40]))
+        ck.notes.append(f"audit_coq: {len(hits)} hit(s)")
+    except Exception as e:  # the audit must never hide a result
+        ck.notes.append(f"audit_coq could not run: {e}")
     targets = [f"Properties/{ck.pid}.vo", *extra_targets]
     ok, log = make(targets)
     if not ok:
